@@ -71,10 +71,13 @@ type c05OutCase struct {
 	ErrMsg   int   `json:"err_msg"`
 	Details  int   `json:"details"`
 	ReqSizes []int `json:"req_sizes"`
+	// Proxied: the error carries the metadata of an upstream gRPC error
+	// (protocol-reserved keys included), as a proxying handler returns it.
+	Proxied bool `json:"proxied,omitempty"`
 }
 
 func (k c05OutCase) key() string {
-	return fmt.Sprintf("out/%s/h%d/t%d/resp%v/err%d.%d.%d/req%v", k.Cfg, k.NHdr, k.NTrl, k.Sizes, k.ErrCode, k.ErrMsg, k.Details, k.ReqSizes)
+	return fmt.Sprintf("out/%s/h%d/t%d/resp%v/err%d.%d.%d/req%v/proxied=%v", k.Cfg, k.NHdr, k.NTrl, k.Sizes, k.ErrCode, k.ErrMsg, k.Details, k.ReqSizes, k.Proxied)
 }
 
 var c05Msgs = []string{"", "plain", "näh 100% \r\n ☃", strings.Repeat("x", 300)}
@@ -109,6 +112,12 @@ func c05OutCheck(c *ev.Collector, k c05OutCase) {
 		for i := 0; i < k.Details; i++ {
 			a, _ := anypb.New(c05Detail(i))
 			wantErr.AddDetail(a)
+		}
+		if k.Proxied {
+			wantErr.Meta().Set("Grpc-Status", "14")
+			wantErr.Meta().Set("Grpc-Message", "upstream%20said")
+			wantErr.Meta().Set("Grpc-Status-Details-Bin", "CA4SBHVwc3Q")
+			wantErr.Meta().Set("X-Upstream", "u1")
 		}
 	}
 	respPayloads := make([][]byte, len(k.Sizes))
@@ -288,6 +297,7 @@ const (
 	vFinalCRLF
 	vOmitMessage
 	vMetaInEnd
+	vCompressEnd
 )
 
 func (k c05PeerCase) key() string {
@@ -295,7 +305,7 @@ func (k c05PeerCase) key() string {
 	if k.JSON {
 		codec = "json"
 	}
-	return fmt.Sprintf("peer/%s/%s/%s/n%d/c%d/err%d.%d.%d/meta%d/vary%06b/tcase%d", k.Proto, k.Kind, codec, k.NMsgs, k.Compress, k.ErrCode, k.ErrMsg, k.Details, k.Meta, k.Vary, k.TCase)
+	return fmt.Sprintf("peer/%s/%s/%s/n%d/c%d/err%d.%d.%d/meta%d/vary%07b/tcase%d", k.Proto, k.Kind, codec, k.NMsgs, k.Compress, k.ErrCode, k.ErrMsg, k.Details, k.Meta, k.Vary, k.TCase)
 }
 
 func c05PeerCheck(c *ev.Collector, k c05PeerCase) {
@@ -311,7 +321,7 @@ func c05PeerCheck(c *ev.Collector, k c05PeerCase) {
 	spec := &refwire.RespSpec{
 		P: wireProto(k.Proto), Unary: k.Kind == KUnary, ContentType: contentType(k.Proto, k.Kind, k.JSON),
 		TrailersOnly: k.Vary&vTrailersOnly != 0, HexLower: k.Vary&vHexLower != 0, PadDetails: k.Vary&vPadDetails != 0,
-		OmitMessage: k.Vary&vOmitMessage != 0, MetaInEnd: k.Vary&vMetaInEnd != 0,
+		OmitMessage: k.Vary&vOmitMessage != 0, MetaInEnd: k.Vary&vMetaInEnd != 0, CompressEnd: k.Vary&vCompressEnd != 0,
 		TrailerCase: k.TCase, Header: http.Header{"X-Lead": {"lead value"}},
 	}
 	var payloads [][]byte
@@ -443,6 +453,9 @@ func c05PeerCases(thorough bool) []c05PeerCase {
 									}
 									if kind != KUnary {
 										bits = append(bits, vMetaInEnd)
+										if comp != 0 {
+											bits = append(bits, vCompressEnd)
+										}
 									}
 								case PGRPC, PGRPCWeb:
 									if n == 0 {
@@ -450,6 +463,9 @@ func c05PeerCases(thorough bool) []c05PeerCase {
 									}
 									if ec != 0 {
 										bits = append(bits, vHexLower, vPadDetails)
+									}
+									if p == PGRPCWeb && comp != 0 && n > 0 {
+										bits = append(bits, vCompressEnd)
 									}
 								}
 								tcases := []int{1}
@@ -672,6 +688,9 @@ func c05OutCases(thorough bool) []c05OutCase {
 												continue
 											}
 											out = append(out, c05OutCase{Cfg: cfg, NHdr: nh, NTrl: nt, Sizes: rs, ErrCode: ec, ErrMsg: em, Details: det, ReqSizes: qs})
+											if nh == 0 && nt == 0 && ec == 3 {
+												out = append(out, c05OutCase{Cfg: cfg, NHdr: nh, NTrl: nt, Sizes: rs, ErrCode: ec, ErrMsg: em, Details: det, ReqSizes: qs, Proxied: true})
+											}
 										}
 									}
 								}
@@ -688,7 +707,7 @@ func c05OutCases(thorough bool) []c05OutCase {
 func TestC05(t *testing.T) {
 	c := ev.New("C05")
 	defer func() { _ = c.Finish() }()
-	c.SetRule("(i) program enumeration: handler programs {0..2 headers, 0..2 trailers, k messages, nil | error(code, message class, details)} and client programs (k request messages) x {connect,grpc,grpcweb} x {proto,json} x {default, sendgzip, sendmin, custom} x 4 RPC kinds run on the real library; the recorded request and response bytes are decoded by the independent strict decoder refwire (no problems allowed) and must yield the application's messages, status, error, details and metadata; (ii) refwire encodes conformant responses with every combination of the applicable legal variations (trailers-only placement, hex case, base64 padding, trailer-block name casing, omitted empty message, empty metadata object, per-message compression pattern, metadata key casing) and conformant requests (bare content types, per-message compression, timeout forms) and the library must accept them and decode the same values; refwire-encoded traces are validated against the implementation one by one; distinct = full tuple")
+	c.SetRule("(i) program enumeration: handler programs {0..2 headers, 0..2 trailers, k messages, nil | error(code, message class, details)} and client programs (k request messages) x {connect,grpc,grpcweb} x {proto,json} x {default, sendgzip, sendmin, custom} x 4 RPC kinds run on the real library; the recorded request and response bytes are decoded by the independent strict decoder refwire (no problems allowed) and must yield the application's messages, status, error, details and metadata; (ii) refwire encodes conformant responses with every combination of the applicable legal variations (trailers-only placement, hex case, base64 padding, trailer-block name casing, omitted empty message, empty metadata object, compressed terminator frame, per-message compression pattern, metadata key casing) and conformant requests (bare content types, per-message compression, timeout forms) and the library must accept them and decode the same values; refwire-encoded traces are validated against the implementation one by one; distinct = full tuple")
 	c.Assume("refwire follows the protocol documents as of the pinned commit (DESIGN appendix A); it is cross-checked against itself (encode -> strict decode) on every generated peer")
 	if ev.ReplayFile() != "" {
 		v, err := ev.LoadReplay(nil)
